@@ -143,7 +143,8 @@ Theorem C04_flag_calls_keep_feature_bits : forall b m s e interior from_out b', 
 Proof. exact BufferFlagFrameP.set_glyph_flags_fbits. Qed.
 Print Assumptions C04_flag_calls_keep_feature_bits.
 
-(* ... and so does every finite sequence of pure bookkeeping operations - cluster merges and the four flag calls with any
+(* ... and so does every finite sequence of pure bookkeeping operations - cluster merges in both buffers, the four flag calls
+   and the cursor steps next_glyph / next_glyphs, with any
    arguments, in any mode, at any cluster level (operation alphabet and `run` of Model/BufferOps.v, the model the
    operation-sequence correspondence replays) *)
 Theorem C04_bookkeeping_sequences_keep_glyphs : forall ops b b', forallb BufferFlagFrameP.bookkeeping ops = true ->
